@@ -294,7 +294,7 @@ def main(chk: Check, replay: dict | None = None) -> int:
         codes = chk.coq_eval("From PG Require Import Lib.Strs Model.Transport Corr.C17.",
                              "(transport * list kwargs) * list obs1",
                              [c_case(c["input"], c["obs"]) for c in cases], "run")
-    chk.decide(cases, codes, {1: "F17b"}, "Corr.C17.run: session(model) = wire observed under MockTransport")
+    chk.decide(cases, codes, {}, "Corr.C17.run: session(model) = wire observed under MockTransport")
     return chk.finish(TRUSTED,
                       rule="corpus + ordered selections of the plugin kinds + seeded random transports (defaults/auth tree/"
                            "bearer) x sessions of 1-3 requests; non-trivial = has auth or defaults; distinct by JSON of the input")
